@@ -168,8 +168,17 @@ func ruleDETERM(w *World, r *Report) {
 	determGoroutineOption(w, r)
 	// the name hashed is the relative path
 	if fn := w.Fn("(*par2.Encoder).LoadFileData"); fn != nil {
-		cs := callsIn(fn, "par2.computeDataFileInfo")
-		if len(cs) == 1 && strings.HasSuffix(deepPath(cs[0].Common().Args[1]).Path, ".relFilePaths[*]") {
+		var cs []ssa.CallInstruction
+		seenCall := map[ssa.CallInstruction]bool{}
+		for _, rf := range region(fn) {
+			for _, c := range callsIn(rf, "par2.computeDataFileInfo") {
+				if !seenCall[c] {
+					seenCall[c] = true
+					cs = append(cs, c)
+				}
+			}
+		}
+		if len(cs) == 1 && strings.HasSuffix(deepPath(w.up(cs[0].Common().Args[1])).Path, ".relFilePaths[*]") {
 			r.ok("DETERM", "D-d:par2.LoadFileData:name", w.ipos(cs[0]), "file ids are computed from e.relFilePaths[i] (filepath.Rel result, see SANIT S5)")
 		} else {
 			r.bad("DETERM", "D-d:par2.LoadFileData:name", w.pos(fn.Pos()), "the name hashed into the file id is not the stored relative path")
@@ -368,7 +377,7 @@ func determGoroutineOption(w *World, r *Report) {
 				if i == len(args)-1 {
 					continue // numGoroutines itself
 				}
-				backSlice(a, func(v ssa.Value) bool {
+				fieldSlice(a, func(v ssa.Value) bool {
 					if cl, ok := v.(*ssa.Call); ok {
 						if n := staticCalleeShort(&cl.Call); n == "par2.NumGoroutinesDefault" || n == "rsec16.DefaultNumGoroutines" {
 							bad = "argument " + fmt.Sprint(i) + " of newEncoder depends on " + n + "()"
@@ -528,4 +537,73 @@ func determPathsPar2(w *World, r *Report, everyInput bool) {
 	} else {
 		r.unk("DETERM", "D-d:par2.create", "-", "function not found")
 	}
+}
+
+// fieldSlice is a backward slice that keeps the fields of a local struct variable apart: a load
+// of v.f depends on the stores to v.f and, for a store of a whole struct value into v, on that
+// value's field f only (visited as a synthetic question: visit is called with the FieldAddr
+// itself, whose field name the caller can inspect) - not on what was stored into v.g.
+func fieldSlice(v ssa.Value, visit func(v ssa.Value) bool) {
+	seen := map[ssa.Value]bool{}
+	var walk func(v ssa.Value)
+	walk = func(v ssa.Value) {
+		if v == nil || seen[v] {
+			return
+		}
+		seen[v] = true
+		if ld, ok := v.(*ssa.UnOp); ok && ld.Op == token.MUL {
+			if fa, ok := ld.X.(*ssa.FieldAddr); ok {
+				if cell, ok := fa.X.(*ssa.Alloc); ok {
+					if !visit(v) {
+						return
+					}
+					for _, ref := range referrersOf(cell) {
+						switch x := ref.(type) {
+						case *ssa.FieldAddr:
+							if x.Field != fa.Field {
+								continue
+							}
+							for _, r2 := range referrersOf(x) {
+								if st, ok := r2.(*ssa.Store); ok && st.Addr == ssa.Value(x) {
+									walk(st.Val)
+								}
+							}
+						case *ssa.Store:
+							if x.Addr == ssa.Value(cell) {
+								// field fa.Field of the whole value stored: parameters and constants
+								// contribute only that field, which visit has already seen by name
+								if _, isParam := x.Val.(*ssa.Parameter); !isParam {
+									walk(x.Val)
+								}
+							}
+						}
+					}
+					return
+				}
+			}
+		}
+		if !visit(v) {
+			return
+		}
+		switch x := v.(type) {
+		case *ssa.Alloc:
+			for _, ref := range referrersOf(x) {
+				if st, ok := ref.(*ssa.Store); ok && st.Addr == ssa.Value(x) {
+					walk(st.Val)
+				}
+			}
+		case *ssa.Phi:
+			for _, e := range x.Edges {
+				walk(e)
+			}
+		}
+		if in, ok := v.(ssa.Instruction); ok {
+			for _, op := range in.Operands(nil) {
+				if *op != nil {
+					walk(*op)
+				}
+			}
+		}
+	}
+	walk(v)
 }
